@@ -36,7 +36,7 @@ NewSess(e) == [proto |-> e.proto, tOpen |-> e.t, closed |-> FALSE, closeT |-> Of
                sent |-> <<>>, nrcv |-> 0, sub |-> <<>>, del |-> <<>>,
                created |-> <<>>, flushed |-> {}, cbReg |-> <<>>, cbRun |-> <<>>, lastFlush |-> <<>>, phase |-> "idle",
                causes |-> {}, pollOut |-> 0, dataOut |-> 0, closeAsked |-> Off, buffered |-> <<>>, closeSeen |-> FALSE, lastPost |-> <<>>, cset |-> {}, grace |-> Off, closeCalled |-> FALSE, parked |-> 0, may |-> {}, v3lossy |-> FALSE, sloppy |-> FALSE, nested |-> FALSE, inDispatch |-> FALSE, probeT |-> Off, coincide |-> FALSE,
-               accAtClose |-> {}, retd |-> {}, noopDue |-> Off, phaseUnk |-> FALSE, hard |-> FALSE, closeReason |-> "", gracefulAsked |-> FALSE]
+               accAtClose |-> {}, retd |-> {}, noopDue |-> Off, phaseUnk |-> FALSE, parkedRW |-> 0, hard |-> FALSE, closeReason |-> "", gracefulAsked |-> FALSE]
 
 \* ---------------------------------------------------------------- common per-event checks for sock.* events
 \* lifecycle clauses that apply to every event sampled from a socket
@@ -271,13 +271,15 @@ Step ==
        [] e.e = "app.srvclose.ret" ->
             /\ viol' = viol \o tv /\ UNCHANGED <<cfg, S, Rq, Cn>>
        [] e.e = "gate.park" /\ Has(SS, e.id) ->
-            /\ S' = Put(SS, e.id, [SS[e.id] EXCEPT !.parked = SS[e.id].parked + 1]) /\ viol' = viol \o tv /\ UNCHANGED <<cfg, Rq, Cn>>
+            /\ S' = Put(SS, e.id, [SS[e.id] EXCEPT !.parked = SS[e.id].parked + 1,
+                                                      !.parkedRW = IF e.point = "rw.write" THEN SS[e.id].parkedRW + 1 ELSE SS[e.id].parkedRW])
+            /\ viol' = viol \o tv /\ UNCHANGED <<cfg, Rq, Cn>>
        [] e.e = "gate.release" /\ Has(SS, e.id) ->
             \* obligations that fell due while parked are re-based at the release instant
             LET s0 == SS[e.id]
                 n == IF s0.parked > 0 THEN s0.parked - 1 ELSE 0
                 rebase(x) == IF n = 0 /\ x # Off /\ x < t THEN Off ELSE x
-            IN /\ S' = Put(SS, e.id, [s0 EXCEPT !.parked = n, !.pingDue = rebase(s0.pingDue), !.deadline = rebase(s0.deadline), !.closeAsked = rebase(s0.closeAsked), !.noopDue = rebase(s0.noopDue)])
+            IN /\ S' = Put(SS, e.id, [s0 EXCEPT !.parked = n, !.parkedRW = IF e.point = "rw.write" /\ s0.parkedRW > 0 THEN s0.parkedRW - 1 ELSE s0.parkedRW, !.pingDue = rebase(s0.pingDue), !.deadline = rebase(s0.deadline), !.closeAsked = rebase(s0.closeAsked), !.noopDue = rebase(s0.noopDue)])
                /\ viol' = viol \o tv /\ UNCHANGED <<cfg, Rq, Cn>>
        [] e.e = "reent" /\ known ->
             \* a Send issued from inside the packetCreate listener of another Send completes before it: their relative
@@ -300,7 +302,7 @@ Step ==
                       ELSE IF e.kind = "post" THEN [s0 EXCEPT !.dataOut = e.rid] ELSE s0
                 partner == IF ~overlap THEN 0 ELSE IF e.kind = "poll" THEN s0.pollOut ELSE s0.dataOut
             IN /\ Rq' = Put(Rq, e.rid, [kind |-> e.kind, sid |-> sid, nresp |-> 0, aborted |-> FALSE, returned |-> FALSE, overlap |-> overlap, partner |-> partner,
-                                         toClosed |-> live /\ s0.closed, inCloseWindow |-> live /\ s0.parked > 0, msgs |-> IF live /\ e.kind = "post" THEN s0.lastPost ELSE <<>>, status |-> 0, t |-> t])
+                                         toClosed |-> live /\ s0.closed, inCloseWindow |-> live /\ s0.parked > 0, duringRW |-> live /\ s0.parkedRW > 0, msgs |-> IF live /\ e.kind = "post" THEN s0.lastPost ELSE <<>>, status |-> 0, t |-> t])
                /\ S' = IF live THEN Put(SS, sid, ns) ELSE SS
                /\ viol' = viol \o tv /\ UNCHANGED <<cfg, Cn>>
        [] e.e = "cli.post" /\ known ->
@@ -318,7 +320,7 @@ Step ==
             IN /\ S' = Upd(ns) /\ viol' = viol \o tv /\ UNCHANGED <<cfg, Rq, Cn>>
        [] e.e = "cli.resp" ->
             LET rq == IF Has(Rq, e.rid) THEN Rq[e.rid] ELSE [kind |-> e.kind, sid |-> "", nresp |-> 0, aborted |-> FALSE, returned |-> FALSE,
-                                                              overlap |-> FALSE, partner |-> 0, toClosed |-> FALSE, inCloseWindow |-> FALSE, msgs |-> <<>>, status |-> 0, t |-> t]
+                                                              overlap |-> FALSE, partner |-> 0, toClosed |-> FALSE, inCloseWindow |-> FALSE, duringRW |-> FALSE, msgs |-> <<>>, status |-> 0, t |-> t]
                 sid == rq.sid
                 live == sid # "" /\ Has(SS, sid)
                 s0 == IF live THEN SS[sid] ELSE s
@@ -334,9 +336,9 @@ Step ==
                     \* (a request may be overtaken between the router and the transport), so the breach is that NEITHER is
                     \o (IF e.status # 400 /\ \E x \in DOMAIN Rq : x # e.rid /\ (rq.partner = x \/ Rq[x].partner = e.rid) /\ Rq[x].kind = rq.kind
                                                                 /\ Rq[x].status \notin {0, 400}
-                                                                \* (a request issued while a goroutine of the session was held at a yield point
-                                                                \*  may simply have been overlapped by the harness with a request the server had done with)
-                                                                /\ ~rq.inCloseWindow /\ ~Rq[x].inCloseWindow
+                                                                \* (a request issued while a response of the session was held inside its write: the server
+                                                                \*  had done with that request already, only the harness made the two overlap)
+                                                                /\ ~rq.duringRW /\ ~Rq[x].duringRW
                         THEN <<V("C11", "overlapping_request_not_refused", sid, [rid |-> e.rid, status |-> e.status])>> ELSE <<>>)
                     \o (IF rq.toClosed /\ ~(e.status = 400 /\ e.code = 1) THEN <<V("C04", "closed_session_still_reachable", sid, [rid |-> e.rid, status |-> e.status])>> ELSE <<>>)
                     \o (IF live /\ rq.kind = "post" /\ e.okAck /\ ~s0.closed /\ rq.msgs # <<>> /\ ~(SeqSet(rq.msgs) \subseteq SeqSet(s0.del))
